@@ -15,6 +15,7 @@ R1.7  writer typestate: indent()/dedent() are balanced on every path of every em
       the signature generator leaves +1 that the method generator closes)
 R1.8  de-collision precedes emission and the set of schemas that get files is the set that is exported/imported: a
       file filter after naming must be unsatisfiable or be applied to the registry the exports are rendered from
+R1.13 the parameter list a signature is rendered from is sorted required-first as the last step (no element is added after the sort)
 R1.12 spec text placed after a `#` has every line boundary removed (otherwise the rest of the description is parsed as code)  [= R15.1, COMMENT holes]
 R1.11 RenderContext's completion of "incomplete" internal module paths never applies to a module of the core package
 R1.10 the tag client modules client.py imports are the ones the endpoints emitter writes (grouping agreement, rules of C07)
@@ -69,6 +70,7 @@ def run(repo: Repo, rep: Report, tier: str) -> None:
     rep.count("R1.1:handler_emit_sites", n5)
 
     rule_completion_spares_core(repo, rep, "R1.11")
+    rule_required_first(repo, rep, "R1.13")
     # R1.12: nothing that ends a source line survives into a `# comment` built from spec text (instances of R15.1 in COMMENT position)
     from rules._reuse import reuse as _reuse112
 
@@ -647,3 +649,67 @@ def rule_completion_spares_core(repo: Repo, rep, rule: str = "R1.11") -> None:
                               "(ModuleNotFoundError: No module named 'acme.shared.core')", fn.loc(st))
     rep.count(f"{rule}:completion_sites", n)
     rep.require(n >= 1, f"{rule}: no module-path completion (`m = f\"{{root}}.{{m}}\"`) found in RenderContext (anchor)")
+
+
+# ------------------------------------------------------------------------------------------------ R1.13 required parameters come first
+def rule_required_first(repo: Repo, rep, rule: str = "R1.13") -> None:
+    """`def f(self, a: int = None, b: str)` does not compile.  The parameter list the signature is rendered from is made
+    "required first" by one stable sort in EndpointParameterProcessor.process_parameters; that sort must be the last thing that
+    happens to the returned list: every return is dominated by a required-keyed sort of the *returned* variable, and nothing is
+    added to it (or rebinds it) between the sort and the return."""
+    from sa.cfg import CFG
+
+    pp = repo.func("visit.endpoint.processors.parameter_processor:EndpointParameterProcessor.process_parameters")
+    cfg = CFG(pp.node)
+    dom = cfg.dominators()
+    rets = [n for n in cfg.nodes if n.kind == "stmt" and isinstance(n.ast, ast.Return) and not n.copy and n.ast.value is not None]
+    rep.require(bool(rets), f"{rule}: process_parameters has no return (anchor)")
+
+    def required_key(call: ast.Call) -> bool:
+        return any(k.arg == "key" and "required" in norm(k.value) for k in call.keywords)
+
+    for r in rets:
+        v = r.ast.value.elts[0] if isinstance(r.ast.value, ast.Tuple) and r.ast.value.elts else r.ast.value
+        sub = f"{pp.module.relpath}:process_parameters `return {norm(v)[:30]}, …`"
+        if not isinstance(v, ast.Name):
+            if isinstance(v, ast.Call) and isinstance(v.func, ast.Name) and v.func.id == "sorted" and required_key(v):
+                rep.ok(rule, sub, "the returned list is `sorted(..., key=required-first)` itself", pp.loc(r.ast))
+            else:
+                rep.error(f"{rule}: cannot identify the returned parameter list of process_parameters (`{norm(v)[:40]}`)")
+            continue
+        name = v.id
+        sorts, touches = [], []
+        for n in cfg.nodes:
+            if n.kind != "stmt" or n.ast is None or n.copy:
+                continue
+            for c in calls_in(n.ast):
+                if isinstance(c.func, ast.Attribute) and isinstance(c.func.value, ast.Name) and c.func.value.id == name:
+                    if c.func.attr == "sort" and required_key(c):
+                        sorts.append(n)
+                    elif c.func.attr in ("append", "extend", "insert", "reverse", "sort"):
+                        touches.append(n)
+            if isinstance(n.ast, (ast.Assign, ast.AnnAssign, ast.AugAssign)):
+                tgs = n.ast.targets if isinstance(n.ast, ast.Assign) else [n.ast.target]
+                if any(isinstance(t, ast.Name) and t.id == name for t in tgs):
+                    val = n.ast.value
+                    if isinstance(n.ast, ast.Assign) and isinstance(val, ast.Call) and isinstance(val.func, ast.Name) and val.func.id == "sorted" and required_key(val):
+                        sorts.append(n)
+                    else:
+                        touches.append(n)
+        good = [s for s in sorts if s.id in dom[r.id]]
+        if not good:
+            rep.violation(rule, sub, f"{pp.fq}|required-first|no-dominating-sort",
+                          f"no required-first sort of `{name}` dominates this return: a required parameter (for instance a path variable the spec forgot to declare, "
+                          "which is synthesised as required) can follow an optional one and the generated `def` is a SyntaxError "
+                          "('parameter without a default follows parameter with a default')", pp.loc(r.ast))
+            continue
+        s = good[-1]
+        # nothing touches the list on a way from the sort to the return
+        after = cfg.reachable(s.id)
+        late = [t for t in touches if t.id in after and r.id in cfg.reachable(t.id) and t.id != s.id]
+        if late:
+            rep.violation(rule, sub, f"{pp.fq}|required-first|touched-after-sort",
+                          f"`{norm(late[0].ast)[:70]}` changes `{name}` after the required-first sort: elements added there are not ordered and a required parameter can "
+                          "follow an optional one (SyntaxError in the generated signature)", pp.loc(late[0].ast))
+        else:
+            rep.ok(rule, sub, f"`{norm(s.ast)[:60]}` dominates the return and nothing changes the list afterwards", pp.loc(s.ast))
